@@ -32,3 +32,7 @@ def ca_path():
 SERVER_CERTS = ["server_ed25519", "server_ec256", "server_ec384", "server_rsa2048", "server_ed448"]
 CHAINS = ["chain1", "chain2", "chain3", "chain4", "chain5"]
 BAD_CERTS = ["bad_wrongname", "bad_expired", "bad_notyet", "bad_selfsigned", "bad_unknownca", "bad_wrongkey"]
+# self-signed certificates padded to several sizes (tools/make_padded_bad_certs.py): with a swept datagram size the
+# boundary between the datagrams of the server's flight falls between any two handshake messages
+PADDED_BAD_CERTS = ["bad_selfsigned_pad12", "bad_selfsigned_pad16", "bad_selfsigned_pad20", "bad_selfsigned_pad24",
+                    "bad_selfsigned_pad28"]
